@@ -22,7 +22,7 @@ TEXT["C11"] = {
     "level": "Kernel-checked: each of the ~50 hand-specialised Tableau prepend/transposed-append routines and both generic scatter paths equals the gate's documented table (3 widths, regenerated each run); "
              "documented tables = conjugation by the documented unitaries; inverse ids invert; group laws (homomorphism, composition, associativity, inverses) exhaustively for all 24 one-qubit Cliffords. "
              "Correspondence: model-equality for then/apply/pow/sum/scatter/circuit_to_tableau and oracle checks (verified checkers) for inverse, synthesis methods and stabilizers_to_tableau.",
-    "note": COMMON_NOTE + "General-size group laws are validated by correspondence only (partial); unitary-matrix and state-vector conversions not yet covered.",
+    "note": COMMON_NOTE + "General-size group laws are validated by correspondence only (partial). Unitary-matrix and state-vector conversions are judged by an exact amplitude oracle (Model/Amps) whose conventions are proved to agree with every documented gate unitary (C11b.doc_unitaries_satisfy_oracle, oracle_rejects_wrong_sign).",
     "technique": "Lean 4 theorems (decide over regenerated tables, exhaustive one-qubit group laws) + oracle/equality correspondence",
 }
 TEXT["C09"] = {
